@@ -29,7 +29,10 @@ func init() {
 	// a render that writes into the data it was handed changes what the next render of the same
 	// context prints: the same obligations are what repeatability (C01) and determinism (C03)
 	// need from the filters and functions
-	for _, p := range []string{"C01", "C03"} {
+	// (C19: the defining equation of a filter speaks about the value and the arguments the template
+	// wrote; a filter that writes into its argument list or into its value changes the arguments of
+	// the next filter of a chain, whose backing array it may share - round 6, C19-12)
+	for _, p := range []string{"C01", "C03", "C19"} {
 		pp := p
 		families[pp] = append(families[pp], func(w *World, _ string) ([]*Obligation, []string) {
 			obls, notes := callerDataFamily(w, "C18")
